@@ -35,7 +35,7 @@ def run(ctx):
             ctx.cov["evaluations"] += len(c["lines"])
             if langcheck.nontrivial(c) and len(c["lines"]) > 1:
                 ctx.cov["distinct_nontrivial"] += 1
-            if fb:
+            if fb and not ctx.enough():
                 again = langcheck.replay(ctx, binary, [c], fresh=True)[c["seed"]]
                 fb2 = langcheck.compare_fresh(again)
                 if fb2:
